@@ -39,7 +39,9 @@ def plan(tier, seed):
     kinds = ['mesh', 'mesh', 'eol', 'long', 'raman', 'mesh', 'eol', 'gain', 'p2p', 'mesh']
     cases = [{'idx': i, 'kind': kinds[i % len(kinds)]} for i in range(n)]
     # dedicated cases that reproduce a listed finding (gain mode, automatic type, saturating operator gain, input VOA)
-    return cases + [{'idx': n, 'kind': 'kf-invoa-gain'}, {'idx': n + 1, 'kind': 'kf-invoa-gain'}]
+    return cases + [{'idx': n, 'kind': 'kf-invoa-gain'}, {'idx': n + 1, 'kind': 'kf-invoa-gain'},
+                    {'idx': n + 2, 'kind': 'kf-fibre-values'}, {'idx': n + 3, 'kind': 'kf-fibre-values'},
+                    {'idx': n + 4, 'kind': 'kf-multiband-srs'}]
 
 
 def sim_json():
@@ -136,6 +138,13 @@ def build_inputs(rng, kind):
             if e['type_variety'] in ('std_medium_gain', 'std_low_gain', 'std_high_gain') and rng.random() < 0.7:
                 e['out_voa_auto'] = True
     raman_net = kind == 'raman'
+    if kind == 'kf-multiband-srs':
+        # shipped C+L example designed with the Raman flag on (the design then estimates the power tilt between bands)
+        ej = G.eqpt_json('eqpt_config_multiband.json')
+        tj = G.example_json('multiband_example_network.json')
+        sim = {'raman_params': {'flag': True, 'result_spatial_resolution': 10e3, 'solver_spatial_resolution': 10e3},
+               'nli_params': {'method': 'gn_model_analytic', 'computed_number_of_channels': 3}}
+        return ej, tj, sim, False
     if kind == 'kf-invoa-gain':
         ej = G.eqpt_json()
         ej['Span'][0]['power_mode'] = False
@@ -162,6 +171,16 @@ def build_inputs(rng, kind):
         tj, _ = G.gen_topology(rng, max_sites=4, max_spans=3, long_fibers=(kind == 'long'), per_degree=rng.random() < 0.4,
                                per_freq_loss=rng.random() < 0.3, lumped=rng.random() < 0.2, max_km=140,
                                chassis=rng.random() < 0.2)
+    if kind == 'kf-fibre-values':
+        # element-level values of the fibre parameters that the topology model declares besides length / loss / PMD
+        for e in tj['elements']:
+            if e['type'] == 'Fiber':
+                e['params']['dispersion'] = G.pick(rng, [4e-6, 2.1e-5, 8e-6])
+                e['params'][G.pick(rng, ['gamma', 'effective_area'])] = None
+                if 'gamma' in e['params']:
+                    e['params']['gamma'] = G.pick(rng, [0.002, 0.0009])
+                else:
+                    e['params']['effective_area'] = G.pick(rng, [55e-12, 125e-12])
     if kind in ('long', 'p2p', 'mesh'):
         # fibres that get split and carry element-level values (PMD coefficient): every sub-span keeps them, in the
         # designed network and in its saved form
@@ -185,6 +204,56 @@ def gsnr_of(equipment, network, src, dst, raman_net=False):
 
 
 FIG = [None]      # the other figures the last propagation ended with (OSNR, CD, PMD, PDL, latency, power)
+
+
+FIBRE_OVERRIDES = ('dispersion', 'dispersion_slope', 'dispersion_per_frequency', 'gamma', 'effective_area',
+                   'ref_frequency', 'ref_wavelength', 'raman_coefficient')
+
+
+def figures_differ(first, second, ctx):
+    """GSNR to 1e-4 dB, route exact, everything else the propagation accumulates as well (dB figures to 1e-4 dB, the
+    others to 1e-6 relative: the export rounds lengths to the micrometre).  Returns a description or None."""
+    (g1, route1, fig1), (g2, route2, fig2) = first, second
+    if route1 != route2 or g1.shape != g2.shape or np.max(np.abs(g1 - g2)) > 1e-4:
+        return f'GSNR {g1[:3]} vs {g2[:3]}'
+    for k, v in fig2.items():
+        u = fig1[k]
+        tol = 1e-4 if k in ('osnr_ase_01nm', 'pch_dbm') else 1e-6 * max(1e-30, float(np.max(np.abs(u))))
+        ctx.count('other_figures_compared')
+        if u.shape != v.shape or np.max(np.abs(u - v)) > tol:
+            return f'{k} {u[:3]} vs {v[:3]}'
+    return None
+
+
+def has_fibre_overrides(tj):
+    return any(k in e.get('params', {}) for e in tj['elements'] if e['type'] in ('Fiber', 'RamanFiber')
+               for k in FIBRE_OVERRIDES)
+
+
+def reproduces_without_fibre_overrides(ej, tj, sim, a, z, raman_net, ctx):
+    t2 = deepcopy(tj)
+    for e in t2['elements']:
+        if e['type'] in ('Fiber', 'RamanFiber'):
+            for k in FIBRE_OVERRIDES:
+                e['params'].pop(k, None)
+    try:
+        eq1, net1 = design_once(ej, t2, sim, ctx, 'classifier')
+        g1, r1 = gsnr_of(eq1, net1, a, z, raman_net)
+        f1 = FIG[0]
+        x = json.loads(json.dumps(network_to_json(net1)))
+        eq2, net2 = design_once(ej, x, sim, ctx, 'classifier', exported=True)
+        g2, r2 = gsnr_of(eq2, net2, a, z, raman_net)
+        return figures_differ((g1, r1, f1), (g2, r2, FIG[0]), ctx) is None
+    except Exception:  # noqa
+        return False
+    finally:
+        SimParams.set_params({})
+
+
+def design_bands_of(network):
+    from gnpy.core.elements import Roadm, Transceiver
+    return {n.uid: json.loads(json.dumps(n.per_degree_design_bands, sort_keys=True, default=str))
+            for n in network.nodes() if isinstance(n, (Roadm, Transceiver))}
 
 
 def is_invoa_drift(ej, tj, d):
@@ -259,6 +328,10 @@ def run_case(case, ctx):
                     SimParams.set_params({})
             if mech is None and r == 0 and is_invoa_drift(ej, tj, d):
                 mech = 'gain-mode-input-voa-first-reload-lowers-gain'
+            if mech is None and r == 0 and design_bands_of(prev_net) != design_bands_of(net_n):
+                # witness predicate of the listed finding: the design bands the two designs worked with differ (they
+                # are derived from the amplifiers whose type is known, and the saved design knows them all)
+                mech = 'design-bands-derived-again-from-selected-amplifiers'
             ctx.violation('redesign-drift', f'round {r + 1}: export -> reload -> redesign changed the network: {d}',
                           mechanism=mech)
             if mech is None:
@@ -269,20 +342,18 @@ def run_case(case, ctx):
             SimParams.set_params({})
             ctx.count('propagation_comparisons')
             ctx.maxstat('gsnr_drift_db', float(np.max(np.abs(g_n - g_prev))) if g_n.shape == g_prev.shape else 99)
-            if route_n != route_prev or g_n.shape != g_prev.shape or np.max(np.abs(g_n - g_prev)) > 1e-4:
+            diff = figures_differ((g_prev, route_prev, fig_prev), (g_n, route_n, FIG[0]), ctx)
+            if diff:
+                mech = None
+                if r == 0 and has_fibre_overrides(tj) and reproduces_without_fibre_overrides(ej, tj, sim, a, z, raman_net, ctx):
+                    # witness predicate of the listed finding: the same comparison on the same input without the
+                    # element-level fibre values (dispersion, gamma, effective area ...) shows no difference
+                    mech = 'export-drops-element-level-fibre-values'
                 ctx.violation('redesign-changes-results', f'round {r + 1}: the saved design does not reproduce the '
-                              f'propagation results ({a} -> {z}): GSNR {g_prev[:3]} vs {g_n[:3]}')
-                return
-            # everything else the propagation accumulates must be reproduced as well (dB figures to 1e-4 dB, the
-            # others to 1e-6 relative: the export rounds lengths to the micrometre)
-            for k, v in FIG[0].items():
-                u = fig_prev[k]
-                tol = 1e-4 if k in ('osnr_ase_01nm', 'pch_dbm') else 1e-6 * max(1e-30, float(np.max(np.abs(u))))
-                ctx.count('other_figures_compared')
-                if u.shape != v.shape or np.max(np.abs(u - v)) > tol:
-                    ctx.violation('redesign-changes-results', f'round {r + 1}: the saved design does not reproduce the '
-                                  f'propagation results ({a} -> {z}): {k} {u[:3]} vs {v[:3]}')
+                              f'propagation results ({a} -> {z}): {diff}', mechanism=mech)
+                if mech is None:
                     return
+                break
         prev = xn
     ctx.cls(f'kind:{case["kind"]}', 'mode:power' if ej['Span'][0]['power_mode'] else 'mode:gain', f'eol:{eol}',
             f'raman_flag:{sim["raman_params"]["flag"]}', f'nli:{sim["nli_params"]["method"]}')
